@@ -1,6 +1,7 @@
 import VaxisModel.Driver.Common
 import VaxisModel.Model.Sgr
 import VaxisModel.Model.SgrBytes
+import VaxisModel.Model.SgrLinks
 
 /-! Driver for C18 (stateless; one output line per input line).
 
@@ -269,6 +270,19 @@ def stepRtl (which : String) (lcells : List (Cell G × String × String)) (impl 
         else "ok"
   s!"{mc}\t{ic}\t{verdict}"
 
+def lcellB? (c : Cell G × String × String) : Option VaxisModel.Model.SgrLinks.LCell :=
+  match runesOfHex? c.1.g, runesOfHex? c.2.1, runesOfHex? c.2.2 with
+  | some g, some url, some ps => some ⟨⟨g, c.1.st⟩, ⟨url, ps⟩⟩
+  | _, _, _ => none
+
+def stepEncBL (which : String) (lcells : List (Cell G × String × String)) (impl : String) : String :=
+  match lcells.mapM lcellB? with
+  | none => "bad-op\tbad-op\tbad-op"
+  | some cs =>
+    let m := if which = "cells" then hexOfRunes (VaxisModel.Model.SgrLinks.encodeCellsBL false cs)
+             else if which = "ss" then hexOfRunes (VaxisModel.Model.SgrLinks.ssEncodeBL false cs) else "bad-op"
+    s!"{m}\t{impl}\t{if impl = "panic" then "FAIL panic" else "ok"}"
+
 def step (line : String) : String :=
   let (op, impl) := splitTab line
   match fields op with
@@ -287,6 +301,10 @@ def step (line : String) : String :=
   | ["decb", which, dflt, h, table] =>
     match parseStyle? dflt with
     | some dflt => stepDecB which dflt h table impl
+    | none => "bad-op\tbad-op\tbad-op"
+  | "encbl" :: which :: cells =>
+    match cells.mapM parseLCell? with
+    | some lcells => stepEncBL which lcells impl
     | none => "bad-op\tbad-op\tbad-op"
   | "rtl" :: which :: cells =>
     match cells.mapM parseLCell? with
